@@ -236,6 +236,9 @@ func runCheck(id, tier, filter string) int {
 				cfg.Backend = b
 			}
 			cfg.Workers = 16
+			if tier == "thorough" {
+				cfg.TimeoutMs = 180000
+			}
 			if e.MaxDecisions > 0 {
 				cfg.MaxDecisions = e.MaxDecisions
 			}
